@@ -739,12 +739,81 @@ func c06Isolation(p *ana.Prog, r *ana.Result, hr, ut *ssa.Function) {
 			}
 			return rec(v)
 		}
+		// hasEvicted: the value may be the item popped from the queue
+		var hasEvicted func(v ssa.Value, seen map[ssa.Value]bool) bool
+		hasEvicted = func(v ssa.Value, seen map[ssa.Value]bool) bool {
+			if seen[v] {
+				return false
+			}
+			seen[v] = true
+			switch x := v.(type) {
+			case *ssa.Phi:
+				for _, e := range x.Edges {
+					if hasEvicted(e, seen) {
+						return true
+					}
+				}
+			case *ssa.TypeAssert:
+				if c, _ := ana.CallOf(x.X); c != nil && ana.CalleeName(c.Common()) == "container/heap.Pop" {
+					return true
+				}
+			}
+			return false
+		}
+		// onlyFresh: the value is the item allocated by this call on every path
+		var onlyFresh func(v ssa.Value, seen map[ssa.Value]bool) bool
+		onlyFresh = func(v ssa.Value, seen map[ssa.Value]bool) bool {
+			if seen[v] {
+				return true
+			}
+			seen[v] = true
+			switch x := v.(type) {
+			case *ssa.Phi:
+				for _, e := range x.Edges {
+					if !onlyFresh(e, seen) {
+						return false
+					}
+				}
+				return true
+			case *ssa.Alloc:
+				return x.Heap && typeNameOf(x.Type()) == "tssItem"
+			}
+			return false
+		}
 		ana.Instrs(fn, func(in ssa.Instruction) {
+			// a new map entry is always a freshly allocated item: an evicted or looked-up item
+			// would bring another client's timestamps with it
+			if mu, ok := in.(*ssa.MapUpdate); ok && loadsGlobal(mu.Map, tss) {
+				n++
+				if onlyFresh(mu.Value, map[ssa.Value]bool{}) {
+					r.Ok("C06.isolation", fname, "new-entry-is-fresh-item", posOf(p, in), "the item inserted for a new client is allocated by this call on every path")
+				} else {
+					bad++
+					r.Violate("C06.isolation", fname, "new-entry-is-fresh-item", posOf(p, in), "the item inserted into the store for a new client is not on every path a freshly allocated one (a recycled item carries another client's stored timestamps, which are then served to the new client)")
+				}
+				return
+			}
 			fa, ok := in.(*ssa.FieldAddr)
 			if !ok || typeNameOf(fa.X.Type()) != "tssItem" {
 				return
 			}
 			n++
+			if hasEvicted(fa.X, map[ssa.Value]bool{}) {
+				fld := fieldNameOf(fa.X.Type(), fa.Field)
+				readOnly := true
+				for _, ref := range ana.Referrers(fa) {
+					if u, ok := ref.(*ssa.UnOp); !ok || u.Op != token.MUL {
+						if _, isDbg := ref.(*ssa.DebugRef); !isDbg {
+							readOnly = false
+						}
+					}
+				}
+				if (fld != "key" && fld != "len") || !readOnly {
+					bad++
+					r.Violate("C06.isolation", fname, "evicted-item-only-key-and-len-read:"+fld, posOf(p, in), "the item evicted from the store is used beyond reading its key and length (its buffer belongs to the evicted client)")
+					return
+				}
+			}
 			if !okRoot(fa.X) {
 				// tssQ[0].qval read (eviction test) is allowed: root is an element of tssQ
 				if u, ok := fa.X.(*ssa.UnOp); ok {
